@@ -255,7 +255,9 @@ pub fn run(tier: &str, seed: u64, em: &mut Emitter) {
                     }
                     let kid = r.pick(&kids).clone();
                     let Some(CanonicalJsonValue::String(s)) = set.get(&kid).cloned() else { continue };
-                    let newv = match r.below(7) {
+                    let newv = match r.below(9) {
+                        7 => CanonicalJsonValue::String(format!("{s}AAAA")),
+                        8 => CanonicalJsonValue::String(format!("{s}{}", r.pick(&["A", "AA", "AAA", "QUJD"]))),
                         0 => CanonicalJsonValue::String(format!("{s}=")),
                         1 => CanonicalJsonValue::String(format!("{s}==")),
                         2 => CanonicalJsonValue::String(format!("{s}===")),
